@@ -433,17 +433,31 @@ PROPS = {
         "rule": "genesis stream: per case one random CONSISTENT configuration derived from the mock genesis (2-9 users, 2-5 tokens, "
                 "1-5 pillars, delegations, legacy entries, 0-7 fusions with distinct ids, 0-4 swap entries, optional sporks, "
                 "optional swap/token/stake contract entries), 4 permutations of every unordered list -> NewGenesis hash in process "
-                "(every 5th config also in two fresh subprocesses), 6 single-entry perturbations drawn from 25 kinds -> real "
-                "CheckGenesis (whole and validator by validator) vs model verdict, accepted configurations are started on a fresh "
-                "chain and the ledger is compared with the statement's sums, every 3rd config a LevelDB created with A is restarted "
-                "with B and with permuted A; 20 header lists per config through the real NewMomentumContent; distinct = distinct "
-                "(op,result) lines",
+                "(every 5th config also in two fresh subprocesses), 6 single-entry perturbations drawn from 30 kinds PLUS two directed "
+                "ones per configuration taken in rotation from the repaired gaps of the validators (plasma / pillar contract without "
+                "genesis entry, second entry for a user / a contract / an empty one, negative amount (fresh -v/+v pair or an existing "
+                "balance negated), nil amount, TotalSupply above MaxSupply (by 1, by half, MaxSupply 0), nil MaxSupply, and the accepted "
+                "boundary TotalSupply = MaxSupply) -> real CheckGenesis (whole and validator by validator) vs model verdict; model-free "
+                "monitors: a perturbation that by construction breaks one of the sums of the statement must be refused (never "
+                "accepted, never a panic), every accepted configuration is started on a fresh chain and the ledger is compared with "
+                "the statement's sums (supply per token <= MaxSupply, plasma / pillar / swap holdings); every 4th config goes through "
+                "ReadGenesisConfigFromFile: the config itself (same hash), one perturbation, one file with an amount field removed "
+                "(amount / Amount / totalSupply / znn / qsr / maxSupply in rotation), one with an amount written as null (fusion, "
+                "pillar, TotalSupply, MaxSupply, user balance, contract balance, swap amount in rotation) and one of the repaired gaps "
+                "— the result must be (nil, error): never a genesis, never (nil, nil), never a panic; every 3rd config a LevelDB "
+                "created with A is restarted with B and with permuted A; 20 header lists per config through the real "
+                "NewMomentumContent; distinct = distinct (op,result) lines; directed:* / readfile-* counters in the evidence show "
+                "that every kind ran",
         "partial": "invariance of the full genesis momentum (hash, patch of all embedded storage) under list permutation and across "
                    "fresh processes is decided by the stream on the real code, not by a theorem (the theorems cover the two "
-                   "order-sensitive mechanisms: sorted momentum content, commuting writes to distinct keys); the contract-holding "
-                   "and supply clauses of CheckGenesis hold only under extra premises (contract has a GenesisBlocks entry; one entry "
-                   "per address) and TotalSupply <= MaxSupply is unchecked: _partial theorems + negative witnesses, known findings "
-                   "F13a/F13b/F13c/F13e (and F13d: ReadGenesisConfigFromFile returns (nil,nil) on a missing amount)",
+                   "order-sensitive mechanisms: sorted momentum content, commuting writes to distinct keys). The soundness of "
+                   "CheckGenesis is a full statement since the validators were repaired (F13a-e fixed): check_genesis_sound has no "
+                   "premise besides the representation invariant of a Go map (distinct keys in one BalanceList). Outside the model: "
+                   "configurations on which the validators dereference nil (missing TotalSupply / pillar Amount / fusion Amount, nil "
+                   "amount under the required token of a contract entry) — never accepted: CheckGenesis panics, "
+                   "ReadGenesisConfigFromFile returns ErrInvalidGenesisConfig (exercised through the file on every run). Individual "
+                   "pillar stakes / fusion amounts / swap amounts are not sign-checked by the validators, only their sums are "
+                   "compared with the contract balances; the statement is about those sums",
         "assumptions": ["SHA3 / ABI packing / LevelDB are not modelled: genesis hash equality is observed on the real code"],
     },
     "C15": {
